@@ -84,7 +84,7 @@ Definition compress (h : st5) (block : bytes) : outcome st5 :=
   let '(al, bl, cl, dl, el, ar, br, cr, dr, er) := s in
   Ret (h1 + cl + dr, h2 + dl + er, h3 + el + ar, h4 + al + br, h0 + bl + cr))).
 
-(* for b in range(n): state = compress(*state, data[64*b : 64*(b+1)])   (b0 = first value of b) *)
+(* for b in range(n): state = compress( *state, data[64*b : 64*(b+1)])   (b0 = first value of b) *)
 Fixpoint blocks_loop (n : nat) (b : nat) (data : bytes) (st : st5) : outcome st5 :=
   match n with
   | O => Ret st
